@@ -438,7 +438,11 @@ func genC13(r *Rng, idx int, tier string) *World {
 		case k < 30 && len(routers) < 4 || len(routers) == 0:
 			op.K = pick(r, []string{"gnew", "gadd"})
 			op.Name = fmt.Sprintf("rt%d", i)
-			routers = append(routers, op.Name)
+			if len(routers) > 0 && r.Pct(12) {
+				op.Name = pick(r, routers) // a name that is taken: Add/New must refuse it
+			} else {
+				routers = append(routers, op.Name)
+			}
 			spec := genMSpec(r, 1)
 			op.Args = []string{encodeSpec(spec)}
 		case k < 38:
@@ -526,6 +530,7 @@ type c13Group struct {
 	specs map[string]*MSpec
 	order []string
 	guse  []string
+	dupAccepted []string
 }
 
 // buildC13 replays the administrative history; only != "" keeps just that router (the stand-alone twin).
@@ -542,10 +547,17 @@ func buildC13(w *World, upto int, only string) *c13Group {
 				if only != "" && op.Name != only {
 					return
 				}
+				spec := decodeSpec(op.Args[0])
 				if routers[op.Name] != nil {
+					// the name is taken: the call must be refused (it panics) and change nothing
+					if op.K == "gnew" {
+						cg.g.New(op.Name, buildMatcher(spec))
+					} else {
+						cg.g.Add(buildMatcher(spec), NewSimRouter(env, RouterOpts{Name: op.Name}))
+					}
+					cg.dupAccepted = append(cg.dupAccepted, op.Name)
 					return
 				}
-				spec := decodeSpec(op.Args[0])
 				var r *mux.Router[*Comp]
 				if op.K == "gnew" {
 					r = cg.g.New(op.Name, buildMatcher(spec))
@@ -651,6 +663,9 @@ func execC13(w *World, st *Stats) (*Violation, RunInfo) {
 	}
 	cg := buildC13(w, nAdmin, "")
 	// router names stay unique
+	if len(cg.dupAccepted) > 0 {
+		return &Violation{Prop: "C13", Oracle: "unique-names", Sig: "duplicate-name-accepted", Detail: fmt.Sprintf("Group.Add/New accepted a second router named %v", cg.dupAccepted)}, info
+	}
 	seen := map[string]bool{}
 	for _, r := range cg.g.Routers() {
 		if seen[r.Name()] {
